@@ -51,7 +51,30 @@ def nopOfJson (name : String) (args : Array Json) : Except String NOp := do
   | "update", 1 => pure (.update (← pairsOfJson args[0]!))
   | "setdefault", 2 => pure (.setdefault (← v 0) (← v 1))
   | "__ior__", 1 => pure (.ior (← pairsOfJson args[0]!))
+  | "sort", 2 => pure (.sortWith (← args[0]!.getStr?) (← args[1]!.getBool?))
   | n, k => throw s!"mutator {n}/{k}"
+
+def optInt (j : Json) : Except String (Option Int) :=
+  match j with
+  | .null => pure none
+  | x => do pure (some (← x.getInt?))
+
+/-- a mutator call; `"slice": [lo, hi, step]` (null = left out) turns `__setitem__` / `__delitem__`
+    into the slice forms -/
+def callOfJson (j : Json) : Except String NOp := do
+  let args ← (← j.getObjVal? "args").getArr?
+  let m ← (← j.getObjVal? "m").getStr?
+  match optField j "slice" with
+  | some sl => do
+    let b ← sl.getArr?
+    let lo ← optInt b[0]!
+    let hi ← optInt b[1]!
+    let st ← optInt b[2]!
+    match m with
+    | "__setitem__" => pure (.setslice lo hi st (← listOfJson args[0]!))
+    | "__delitem__" => pure (.delslice lo hi st)
+    | n => throw s!"slice form of {n}"
+  | none => nopOfJson m args
 
 def opOfJson (j : Json) : Except String Op := do
   let kind ← (← j.getObjVal? "op").getStr?
@@ -59,13 +82,18 @@ def opOfJson (j : Json) : Except String Op := do
   match kind with
   | "setattr" => pure (.setattr f (← valOfJson (← j.getObjVal? "v")))
   | "delitem" => pure (.delitem f)
-  | "call" => do
-    let args ← (← j.getObjVal? "args").getArr?
-    pure (.call f (← nopOfJson (← (← j.getObjVal? "m").getStr?) args))
+  | "call" => do pure (.call f (← callOfJson j))
   | "callNested" => do
-    let args ← (← j.getObjVal? "args").getArr?
-    pure (.callNested f (← valOfJson (← j.getObjVal? "k")) (← nopOfJson (← (← j.getObjVal? "m").getStr?) args))
+    pure (.callNested f (← valOfJson (← j.getObjVal? "k")) (← callOfJson j))
   | k => throw s!"op {k}"
+
+def ropOfJson (j : Json) : Except String ROp := do
+  let kind ← (← j.getObjVal? "op").getStr?
+  match kind with
+  | "take" => pure (.take (← (← j.getObjVal? "f").getStr?))
+  | "assignRef" => do pure (.assignRef (← (← j.getObjVal? "f").getStr?) (← (← j.getObjVal? "i").getNat?))
+  | "callRef" => do pure (.callRef (← (← j.getObjVal? "i").getNat?) (← callOfJson j))
+  | _ => do pure (.plain (← opOfJson j))
 
 def errName : MErr → String
   | .typeErr => "TypeError" | .valueErr => "ValueError" | .both => "InvalidStructureErr"
@@ -79,18 +107,27 @@ def run (j : Json) : Except String Json := do
   let O ← oraclesOfJson j
   let cls ← declOfJson (← j.getObjVal? "cls")
   let kw ← kwOfJson (← j.getObjVal? "kw")
-  let ops ← (← (← j.getObjVal? "ops").getArr?).toList.mapM opOfJson
+  let ops ← (← (← j.getObjVal? "ops").getArr?).toList.mapM ropOfJson
+  -- the binding of nested wrappers: probed from the working tree, or forced by the case (directed
+  -- cases exercise the model of the proposed repair)
+  let bound := match optField j "nestedBound" with
+    | some (.bool b) => b
+    | _ => Generated.nestedBound
+  let dh := match optField j "delitemHook" with
+    | some (.bool b) => b
+    | _ => Generated.delitemHook
   match cls with
   | .struct c fields _ =>
     let start := construct O cls kw
     let steps : List Json := match start with
       | .ok (.inst _ attrs) =>
-        let rec go (s : Attrs) : List Op → List Json
+        let rec go (st : MState) : List ROp → List Json
           | [] => []
           | op :: rest =>
-            let r := step Generated.wrappers O c fields s op
-            Json.mkObj [("out", outcomeJson r.2), ("state", valToJson (.inst c.name r.1))] :: go r.1 rest
-        go attrs ops
+            let r := stepR bound dh Generated.wrappers O c fields st op
+            Json.mkObj [("out", outcomeJson r.2), ("state", valToJson (.inst c.name r.1.attrs)),
+                        ("refs", Json.arr (r.1.refs.map (fun w => valToJson w.payload)).toArray)] :: go r.1 rest
+        go { attrs := attrs } ops
       | _ => []
     let implWf ← match optField j "implStates" with
       | none => pure []
